@@ -127,7 +127,7 @@ def verify_cases(rng, res, n):
         fam = fams[j % len(fams)]
         root = scen.new_root()
         try:
-            hooks, timeout = [], 10
+            hooks, timeout = [], 60
             if fam == "c02":
                 ch, desc = c02.gen_case(rng, root, False)
             elif fam == "c05":
